@@ -33,10 +33,17 @@ Definition check_hcase (k : hcase) : bool :=
   (* the statement's characterisation, evaluated on the same history *)
   hstate_eqb (m_state (hrun c (hk_evs k))) (classify c (in_window c (last_time (hk_evs k)) (recorded (hk_evs k)))).
 
-Record gcase := mkG { g_produce : bool; g_env : penv; g_code : Z; g_touched : bool }.
+(* g_env: what THIS partition saw (the gate re-reads State() for every partition, so the
+   state may differ between partitions of one request); g_s3fail: the partition passed the
+   gate and its own S3 call then failed (scripted fake S3); g_after: the rating after that
+   failure was recorded (what backpressureErrorCode reads for the reply). *)
+Record gcase := mkG { g_produce : bool; g_env : penv; g_code : Z; g_touched : bool; g_s3fail : bool; g_after : hstate }.
 
 Definition check_gcase (k : gcase) : bool :=
   match (if g_produce k then produce_partition (g_env k) else fetch_partition (g_env k)) with
-  | PReject c => (c =? g_code k) && negb (g_touched k)
-  | PProceed => (g_code k =? 0) && g_touched k
+  | PReject c => (c =? g_code k) && negb (g_touched k) && negb (g_s3fail k)
+  | PProceed =>
+      if g_s3fail k
+      then (if g_produce k then g_code k =? bp_code (g_after k) else negb (g_code k =? 0)) && negb (g_touched k)
+      else (g_code k =? 0) && g_touched k
   end.
